@@ -48,7 +48,7 @@ def analysisVerdict (spec : Json → Json → String) (inp impl : Json) : Verdic
     | _ => false)
   { model := run.model, compare := !walkPanic && !reparseRejected impl, frag := if walkPanic then "out:walk-panic" else if reparseRejected impl then "out:reparse-rejected" else "in",
     specImpl := spec inp impl,
-    trig := run.trig ++ (if ml then ["scopeLeak"] else []) ++ (if repeated then ["repeatedPlaceholder"] else []) ++
+    trig := run.trig ++ (if ml then ["scopeLeak", "nestedLevel"] else []) ++ (if repeated then ["repeatedPlaceholder"] else []) ++
       (if exprCol then ["exprColumn"] else []) ++ (if needsQ then ["needsQuoting"] else []) ++
       (if resShared then ["reservedShared"] else []) ++ (if lenDrop then ["lengthDropped"] else []) ++
       (if coalesceAlias then ["coalesceAlias"] else []) ++ (if aliasList then ["aliasListIgnored"] else []) ++
